@@ -5,7 +5,7 @@
 //! dynamic carrier whose `Pair` variant holds a REAL `WeightedPair<Node, Node>`; it only
 //! forwards and converts error types.
 
-use std::cell::RefCell;
+use std::cell::{Cell, RefCell};
 use std::num::NonZeroUsize;
 
 use ec_core::{
@@ -91,6 +91,9 @@ impl Selector<Pop> for LeafSel {
 
 pub enum Node {
     Leaf(Weighted<LeafSel>),
+    /// a member that is a type of the USER's own (`WithWeight` + `Selector`), not the crate's `Weighted`:
+    /// `with_weighted_item` / `WeightedPair::new` accept any such member
+    Own(LeafSel, u32),
     Pair(Box<WeightedPair<Node, Node>>),
 }
 
@@ -104,6 +107,7 @@ impl WithWeight for Node {
     fn weight(&self) -> u32 {
         match self {
             Self::Leaf(l) => l.weight(),
+            Self::Own(_, w) => *w,
             Self::Pair(p) => p.weight(),
         }
     }
@@ -114,6 +118,9 @@ impl Selector<Pop> for Node {
     fn select<'p, R: Rng + ?Sized>(&self, pop: &'p Pop, rng: &mut R) -> Result<&'p Probe, NodeErr> {
         match self {
             Self::Leaf(l) => l.select(pop, rng).map_err(NodeErr::Leaf),
+            // as `Weighted` does: a member of weight zero is never delegated to
+            Self::Own(_, 0) => Err(NodeErr::Leaf(ec_core::weighted::error::ZeroWeight.into())),
+            Self::Own(sel, _) => sel.select(pop, rng).map_err(|e| NodeErr::Leaf(SelectionError::Selector(e))),
             Self::Pair(p) => p.select(pop, rng).map_err(|e| NodeErr::Pair(Box::new(e))),
         }
     }
@@ -136,13 +143,25 @@ fn leaf_sel(spec: &Value) -> LeafSel {
 
 /// spec tree -> carrier around real combinators (`None`: the real constructor refused it).
 pub fn build(t: &Value) -> Option<Node> {
-    build_scaled(t, 1)
+    let n = BUILDS.with(|b| { b.set(b.get() + 1); b.get() });
+    OWN_FLAVOUR.with(|f| f.set(n % 2 == 0));
+    let r = build_scaled(t, 1);
+    OWN_FLAVOUR.with(|f| f.set(false));
+    r
 }
 
+thread_local! {
+    static DECOY: Cell<u64> = const { Cell::new(0) };
+    static OWN_FLAVOUR: Cell<bool> = const { Cell::new(false) };
+    static BUILDS: Cell<u64> = const { Cell::new(0) };
+}
 /// every leaf weight multiplied by `scale` (the law depends on the ratios only: ScaleInvariant)
 pub fn build_scaled(t: &Value, scale: u64) -> Option<Node> {
     if t["t"] == "leaf" {
-        Some(Node::Leaf(Weighted::new(leaf_sel(t), u32::try_from(u(&t["w"]) * scale).expect("scaled weight fits u32"))))
+        let w = u32::try_from(u(&t["w"]) * scale).expect("scaled weight fits u32");
+        // every second build of a tree uses the user's-own-type flavour for its marker leaves
+        let own = OWN_FLAVOUR.with(|f| f.get()) && t.get("sel").is_none();
+        Some(if own { Node::Own(leaf_sel(t), w) } else { Node::Leaf(Weighted::new(leaf_sel(t), w)) })
     } else {
         let (a, b) = (build_scaled(&t["a"], scale)?, build_scaled(&t["b"], scale)?);
         WeightedPair::new(a, b).ok().map(|p| Node::Pair(Box::new(p)))
@@ -256,6 +275,13 @@ fn dyn_build_with_early_selects(ws: &[u64], scale: usize, pop: &Pop, rng: &mut S
 }
 
 fn select_dyn(d: &DynWeighted<Pop>, pop: &Pop, rng: &mut SmallRng) -> Value {
+    // ANOTHER weighted list (more members, small weights) selects on the same thread just before,
+    // from a generator of its own, and is dropped: what this one chooses does not depend on that
+    if DECOY.with(|c| { c.set(c.get() + 1); c.get() % 3 == 0 }) {
+        let mut scratch = <SmallRng as rand::SeedableRng>::seed_from_u64(7);
+        let decoy = dyn_build(&[1, 1, 1, 1, 1, 1, 1], 1);
+        let _ = guarded(|| decoy.select(pop, &mut scratch).is_ok());
+    }
     INVOKED.with(|l| l.borrow_mut().clear());
     let r = d.select(pop, rng);
     let invoked: Vec<usize> = INVOKED.with(|l| l.borrow().clone());
